@@ -291,7 +291,8 @@ def discharge(ob, inputs, timeout_ms, use_cvc5=True, both=False):
         print("[vc %.2fs %s] %s" % (dt, r, ob.name), flush=True)
     if r == z3.unsat:
         if both:
-            c = cvc5_check(smt2_of(ob.pc, ob.goal), timeout_ms / 1000.0)
+            # second opinion, best effort: cvc5 1.0.3 is slow on some wide bit-vector VCs that z3 closes at once
+            c = cvc5_check(smt2_of(ob.pc, ob.goal), min(timeout_ms / 1000.0, 20.0))
             if c == "sat":
                 return VCResult(ob.name, "unknown", "z3:unsat/cvc5:sat", time.time() - t0, ob.where, ob.kind,
                                 path_id=ob.path_id, reason="solvers disagree")
